@@ -356,12 +356,14 @@ def ndr64_parse_getkey_request(b: bytes) -> dict:
     return {"sd": sd, "root_key_id": rk, "l0": l0, "l1": l1, "l2": l2, "consumed": pos, "referent": ref}
 
 
-def ndr64_getkey_response(envelope: t.Optional[bytes], hresult: int = 0, referent: int = 0x20000) -> bytes:
+def ndr64_getkey_response(envelope: t.Optional[bytes], hresult: int = 0, referent: int = 0x20000, gap_fill: int = 0) -> bytes:
+    """gap_fill: the octet an encoder leaves in NDR alignment gaps (their content is undefined; receivers skip them)."""
+    gap = bytes([gap_fill & 0xFF])
     if envelope is None or hresult != 0:
-        return struct.pack("<I", 0) + b"\x00" * 4 + struct.pack("<Q", 0) + struct.pack("<I", hresult)
-    out = struct.pack("<I", len(envelope)) + b"\x00" * 4
+        return struct.pack("<I", 0) + gap * 4 + struct.pack("<Q", 0) + struct.pack("<I", hresult)
+    out = struct.pack("<I", len(envelope)) + gap * 4
     out += struct.pack("<QQ", referent, len(envelope)) + envelope
-    out += b"\x00" * (-len(out) % 4)
+    out += gap * (-len(out) % 4)
     out += struct.pack("<I", hresult)
     return out
 
